@@ -862,22 +862,53 @@ def classify(lang, tree, strat):
         cross = not (r2 and r2[0] == "text")
     if cross:
         # the failure disappears when every node is completed BEFORE it is attached to its parent.
-        # Is it repaired by running linkProperties() on the ancestors of the receiver, bottom-up, after the history?  That
-        # is what add() itself does since 54ff0b6: if it helps, an ancestor was NOT re-linked — a different root cause
-        # from the known residual (links of an earlier run that the final runs no longer write).
+        # (1) Does add() itself leave an ancestor un-re-linked?  Replay the history with an explicit bottom-up
+        #     linkProperties() on every ancestor of the receiver right after EACH add: since 54ff0b6 add() does exactly that,
+        #     so on a correct add() the replay changes nothing; if it changes the text, add() skipped an ancestor — a root
+        #     cause of its own, never a known finding.
+        from harness.impl import snapshot as _snap
+        try:
+            wh = _world()
+            wh.run(ops, snaps=False)
+            th = wh.realize(root)
+            wq = _world()
+            _snap.load(lang)
+            for op in ops:
+                if wq.run_op(op) is not None:
+                    break
+                if op[0] == "add":
+                    o = wq.objs[op[1]].parentConst
+                    seen = set()
+                    while o is not None and id(o) not in seen:
+                        seen.add(id(o))
+                        o.linkProperties()
+                        o = o.parentConst
+            if wq.realize(root) != th:
+                return "cross-level|an ancestor of the receiver was not re-linked|recv=%s|under=%s" % (
+                    na[recv]["k"], "<".join(na[a]["k"] for a in anc))
+        except Exception:  # noqa
+            pass
+        # (2) add() re-linked every ancestor at the time of the add, yet a full bottom-up re-link AFTER the whole history
+        #     repairs the text: what the last link runs established was changed afterwards (an option applied after the last
+        #     run to a value that linkProperties itself writes or copies) or can only be established by a run that a later
+        #     operation does not trigger.  Classified by the boundary the link has to cross.
         try:
             wr = _world()
             wr.run(ops, snaps=False)
             o = wr.objs[recv].parentConst
             seen = set()
-            from harness.impl import snapshot as _snap
             _snap.load(lang)
             while o is not None and id(o) not in seen:
                 seen.add(id(o))
                 o.linkProperties()
                 o = o.parentConst
             if wr.realize(root) == w3.realize(broot):
-                return "cross-level|an ancestor of the receiver was not re-linked|recv=%s|under=%s" % (
+                chain = "<".join([na[recv]["k"]] + [na[a]["k"] for a in anc])
+                if "S<NP" in chain or "SP<NP" in chain:
+                    return "cross-level|re-link after the history repairs it|crosses=relative-clause"
+                if "CP<" in chain or "coord<" in chain:
+                    return "cross-level|re-link after the history repairs it|crosses=coordination"
+                return "cross-level|re-link after the history repairs it|recv=%s|under=%s" % (
                     na[recv]["k"], "<".join(na[a]["k"] for a in anc))
         except Exception:  # noqa
             pass
